@@ -304,6 +304,7 @@ func (c *PullClient) requestPlay() (err error) {
 	c.stream = media.NewStream(c.path, c.rawSdp,
 		media.Attr("addr", c.url.String()),
 		media.Multicast(mproxy))
+	mproxy.stream = c.stream
 
 	// 返回前同步注册：Open 成功返回时流必须已经可见，
 	// 否则紧随其后的同一路径请求找不到它，会再拉一路
